@@ -136,8 +136,10 @@ Begin(s) ==
   /\ IF Defined(s)
      THEN /\ cur' = s /\ lstart' = s /\ accCur' = s
           /\ pc' = IF Loops(cfg) = 0 THEN "final" ELSE "propose"
-     ELSE /\ pc' = "panic" /\ UNCHANGED <<cur, lstart, accCur>>
-  /\ UNCHANGED <<cfg, val, old, kt, cap, rej, conv, t, loop, idx, new, metro, imp, early, fin,
+          /\ UNCHANGED fin
+     ELSE \* "Invalid configuration passed to function": the one documented panic
+          /\ pc' = "panic" /\ fin' = {s} /\ UNCHANGED <<cur, lstart, accCur>>
+  /\ UNCHANGED <<cfg, val, old, kt, cap, rej, conv, t, loop, idx, new, metro, imp, early,
                  base, lastAcc, evals, dl, lastKt, stage, hist, ref>>
 
 \* basis[i].set_sampled(..): old := current; cell := clamp(sample)
@@ -277,7 +279,7 @@ Next ==
 (* The same step relation with every existential witnessed from the primed *)
 (* state; this is the form recorded executions are checked against.        *)
 NextW ==
-  \/ Begin(IF pc' = "panic" THEN Undef ELSE cur')
+  \/ (pc' # "panic" /\ Begin(cur')) \/ (pc' = "panic" /\ \E s \in fin' : Begin(s))
   \/ Propose(idx', val'[idx'])
   \/ Eval(new')
   \/ Draw(metro')
@@ -315,14 +317,16 @@ C06Done == pc = "done" => /\ val = lastAcc /\ cur = accCur
                           /\ cur \in LandSet(val)
                           /\ \A s \in fin : s = cur
 
-(* C07: Metropolis.                                                         *)
+(* C07: Metropolis.  The comparison is with the score of the state that is *)
+(* actually held (accCur, the observed score of the last accepted          *)
+(* proposal), which a correct optimiser also has in score_current.          *)
 C07Step == (pc = "decide" /\ pc' # "decide") =>
              LET accepted == rej' = rej IN
-             /\ (Better => accepted)
+             /\ ((Defined(new) /\ new >= accCur) => accepted)
              /\ (new = Undef => ~accepted)
-             /\ ((Defined(new) /\ new < cur /\ kt.cls = "zero") => ~accepted)
-             /\ ((Defined(new) /\ new < cur /\ kt.cls = "pos" /\ metro = "yes") => accepted)
-             /\ ((Defined(new) /\ new < cur /\ kt.cls = "pos" /\ metro = "no") => ~accepted)
+             /\ ((Defined(new) /\ new < accCur /\ kt.cls = "zero") => ~accepted)
+             /\ ((Defined(new) /\ new < accCur /\ kt.cls = "pos" /\ metro = "yes") => accepted)
+             /\ ((Defined(new) /\ new < accCur /\ kt.cls = "pos" /\ metro = "no") => ~accepted)
 C07 == [][C07Step]_vars
 
 (* C08: values stay in their declared ranges; a finished run has a         *)
@@ -357,7 +361,8 @@ C19Cap == cap <= cfg.capMax + Tol
 (* C20: no panic from a valid input; at most `steps` evaluations and at    *)
 (* least steps minus one inner loop; early exit only after more than       *)
 (* ConvLimit consecutive small loops; termination.                          *)
-C20NoPanic == pc = "panic" => (cur = Undef /\ evals = 0 /\ fin = {})   \* only an invalid input
+\* the only panic is the documented one: the input was scored and found invalid
+C20NoPanic == pc = "panic" => (cur = Undef /\ evals = 0 /\ fin \subseteq {Undef, Bad} /\ fin # {})
 C20Work == pc = "done" =>
              /\ evals <= cfg.steps
              /\ ~early => evals >= cfg.steps - Max(1, Inner(cfg))
